@@ -1131,8 +1131,12 @@ class _LikeQuoted:
             else:
                 return " || ".join(values)
         elif isinstance(s, string_type):
-            s = _quote_like_special(unquote_str(sqlrepr(s, db)), db)
-            return quote_str("%s%s%s" % (self.prefix, s, self.postfix), db)
+            # escape the LIKE metacharacters of the raw string first, then
+            # render prefix + escaped string + postfix as one ordinary
+            # string literal (escaping the literal first and the LIKE
+            # metacharacters afterwards doubled the backslash of \n, \t, ...)
+            s = s.replace('\\', '\\\\').replace('%', '\\%').replace('_', '\\_')
+            return sqlrepr("%s%s%s" % (self.prefix, s, self.postfix), db)
         else:
             raise TypeError(
                 "expected str, unicode or SQLExpression, got %s" % type(s))
